@@ -201,6 +201,9 @@ fn honest_values<B: StarkField>(desc: &AirDesc) -> (Vec<Vec<B>>, Vec<B>) {
 
 pub fn err_class(e: &winterfell::VerifierError) -> String {
     let s = format!("{e:?}");
+    if std::env::var("WF_WIRE_FULLERR").is_ok() {
+        return s; // diagnostics only
+    }
     s.split(|c| c == '(' || c == ' ' || c == '{').next().unwrap_or("").to_string()
 }
 
